@@ -23,6 +23,7 @@ pub struct Scripted {
     pub panic_every: u64, // a decoder whose build index is a multiple of this panics on its first frame (0 = never)
     pub built: Arc<AtomicU64>,
     pub seed: u64,
+    pub seq: bool,
 }
 
 impl std::fmt::Display for Scripted {
@@ -39,6 +40,7 @@ struct ScriptedDec {
     k: usize,
     panics: bool,
     seed: u64,
+    seq: bool,
 }
 
 impl LdpcDecoder for ScriptedDec {
@@ -61,7 +63,9 @@ impl LdpcDecoder for ScriptedDec {
         for b in cw.iter_mut().take(nerr) {
             *b ^= 1;
         }
-        let out = DecoderOutput { codeword: cw, iterations: id as usize };
+        // sequential mode (one worker, one point, frames consumed in id order): small iteration counts, every fifth frame "converges" at
+        // iteration 0 -- also with wrong bits (a zero-iteration false decode)
+        let out = DecoderOutput { codeword: cw, iterations: if self.seq { if id % 5 == 0 { 0 } else { (id % 7) as usize } } else { id as usize } };
         if id % 3 != 0 { Ok(out) } else { Err(out) }
     }
 }
@@ -76,6 +80,7 @@ impl DecoderFactory for Scripted {
             k: h.num_cols() - h.num_rows(),
             panics: self.panic_every != 0 && idx % self.panic_every == 0,
             seed: self.seed,
+            seq: self.seq,
         })
     }
 }
@@ -146,7 +151,7 @@ pub fn run(ctx: &mut Ctx, _replay: Option<&[String]>) {
                     let inter: Option<isize> = *rng.pick(&[None, Some(3), Some(-3)]);
                     let fac = Scripted {
                         counter: Arc::new(AtomicU64::new(0)), log: Arc::new(Mutex::new(Vec::new())), log_limit: 0,
-                        panic_every: 0, built: Arc::new(AtomicU64::new(0)), seed: ctx.seed * 1000 + rep as u64,
+                        panic_every: 0, built: Arc::new(AtomicU64::new(0)), seed: ctx.seed * 1000 + rep as u64, seq: false,
                     };
                     let (tx, rx) = mpsc::channel();
                     let h2 = h.clone();
@@ -190,6 +195,42 @@ pub fn run(ctx: &mut Ctx, _replay: Option<&[String]>) {
             }
         }
     }
+    // sequential runs: ONE worker and ONE Eb/N0 point, so the frames are consumed in id order 1, 2, 3, ... and the model can replay them
+    // without identifying them by their iteration count -- which frees the iteration count to be small and 0
+    set_workers(1);
+    for &target in &[1u64, 3, 20, 50] {
+        for &bch in &[0u64, 1, 2] {
+            let fac = Scripted {
+                counter: Arc::new(AtomicU64::new(0)), log: Arc::new(Mutex::new(Vec::new())), log_limit: 0,
+                panic_every: 0, built: Arc::new(AtomicU64::new(0)), seed: ctx.seed, seq: true,
+            };
+            let (tx, rx) = mpsc::channel();
+            let h2 = h.clone();
+            let out = with_watchdog(move || {
+                let t = BerTestBuilder {
+                    h: h2, decoder_implementation: fac, modulation: Modulation::Bpsk, puncturing_pattern: None,
+                    interleaving_columns: None, max_frame_errors: target, max_iterations: 9, ebn0s_db: &[60.0],
+                    reporter: Some(Reporter { tx, interval: Duration::ZERO }), bch_max_errors: bch,
+                }.build().unwrap();
+                match t.run() {
+                    Ok(stats) => {
+                        let mut toks = Vec::new();
+                        for r in rx.try_iter() {
+                            match r {
+                                Report::Finished => toks.push("FIN".to_string()),
+                                Report::Statistics(s) => toks.push(stat_token("R", 0, &s)),
+                            }
+                        }
+                        toks.push("|".to_string());
+                        for (i, s) in stats.iter().enumerate() { toks.push(stat_token("S", i, s)); }
+                        toks.join(" ")
+                    }
+                    Err(_) => "err".to_string(),
+                }
+            }, 60);
+            ctx.emit(&format!("c13 seq {} {} {}", k, target, bch), &out, true, &["sequential-single-worker", if bch > 0 { "with-outer-code-threshold" } else { "no-outer-code" }]);
+        }
+    }
     set_workers(1024);
     // failure injection: run() must return Err, never hang
     let fails: Vec<(&str, Modulation, Option<Vec<bool>>, Option<isize>, u64)> = vec![
@@ -205,7 +246,7 @@ pub fn run(ctx: &mut Ctx, _replay: Option<&[String]>) {
         for (name, modulation, punct, inter, panic_every) in fails.clone() {
             let fac = Scripted {
                 counter: Arc::new(AtomicU64::new(0)), log: Arc::new(Mutex::new(Vec::new())), log_limit: 0,
-                panic_every, built: Arc::new(AtomicU64::new(0)), seed: ctx.seed,
+                panic_every, built: Arc::new(AtomicU64::new(0)), seed: ctx.seed, seq: false,
             };
             let h2 = h.clone();
             // half of the failing runs have a reporter attached: the final `Finished` report must arrive also when the run fails
